@@ -244,14 +244,17 @@ def _save_file(
                             shard_index=shard_index,
                         ),
                     )
-                assert tensor.name is not None
-                shard_dict[tensor.name] = {
+                # An entry is named after the initializer, not after the tensor: one tensor
+                # object can back several initializers and has only one name of its own
+                entry_name = values_to_save[current_index].name
+                assert entry_name is not None
+                shard_dict[entry_name] = {
                     "dtype": _IR_DTYPE_TO_SAFETENSORS_DTYPE[tensor.dtype],
                     "shape": _get_tensor_storage_shape(tensor),
                     "data": tensor.tobytes(),
                 }
                 # Update weight_map with shard filename
-                weight_map[tensor.name] = shard_filename
+                weight_map[entry_name] = shard_filename
                 current_offset += tensor.nbytes
                 current_index += 1
 
